@@ -185,7 +185,7 @@ def run(rep, tier):
                     problems.append(("R3", "code:ref:" + det, "reserve", msg, msg))
             # ---- 3.11+: localsplus split
             if v2 >= (3, 11):
-                pr = check_localsplus(loops, lay["localspluskinds"], attrs)
+                pr = localsplus_script(T, cls, passed, want, lay["localspluskinds"])
                 problems.extend(pr)
         if mg not in released and problems:
             for p in problems:
@@ -255,6 +255,52 @@ def run(rep, tier):
            msg="load_code does not unmarshal from the caller's stream (%s): the file position after the call is not the end of the marshalled object" % "; ".join(bad_lc[:2] + [repr(e)[:60] for e in early[:1]]))
     rep.assumptions = ["reference/marshal_format.json and code_layout.json (hand-encoded from marshal.c; validated by an independent reader on CPython 2.7/3.6-3.13 dumps and the repo's .pyc corpus; the 2.0 layout has no sample)",
                        "value equality of the fields (float bits, big-int arithmetic), 'whole payload consumed', PyPy/Graal-specific layouts and the native fast path are not decided"]
+
+
+def localsplus_script(T, cls, magic, want, masks):
+    """The 3.11+ split of co_localsplusnames by co_localspluskinds, decided independently of how (and where) the splitting loop is written: t_code is
+    specialised once more with the two fields bound to concrete values (nine names, one per kind byte CPython emits plus hidden / unknown bits); the
+    co_varnames / co_cellvars / co_freevars of the resulting object must be the names whose kind has CO_FAST_LOCAL / CO_FAST_CELL / CO_FAST_FREE."""
+    names = ("n0", "n1", "n2", "n3", "n4", "n5", "n6", "n7", "n8")
+    kinds = bytes([0x20, 0x60, 0x40, 0x80, 0x30, 0x20, 0x70, 0x00, 0x80])
+    objs = [w[0] for w in want if w[1] == "obj"]
+    if "localsplusnames" not in objs or "localspluskinds" not in objs:
+        return [("R4", "localsplus-loop", "localsplusnames and localspluskinds in the layout", objs, "the reference layout has no localsplus fields")]
+    i_names, i_kinds = objs.index("localsplusnames"), objs.index("localspluskinds")
+    n = [0]
+
+    def hook(spec, name, fv, args, kw, node):
+        if name.endswith(".r_object"):
+            k = n[0]
+            n[0] += 1
+            b = kw.get("bytes_for_s", args[0] if len(args) > 0 else False)
+            r = names if k == i_names else kinds if k == i_kinds else spec.fresh("obj")
+            spec.effect("robj", b, r, node=node)
+            return r
+        return NotImplemented
+    f = cls.lookup("t_code")
+    sp = Spec(T.F, opaque_funcs={"check"})
+    sp.hooks.append(hook)
+    inst = new_instance(cls, magic, ())
+    try:
+        out = sp.run(f, [inst, True, Sym("bytes_for_s", "bool")])
+    except Exception as ex:
+        return [("R4", "localsplus-loop", "evaluable with concrete names and kinds", "not evaluable: %s" % ex, "t_code cannot be specialised with a concrete localsplus table")]
+    rets = [l for g, l in leaves(out) if isinstance(l, Ret)]
+    obj = rets[0].value if len(rets) == 1 else None
+    if not isinstance(obj, Instance):
+        return [("R4", "localsplus-loop", "one portable code object", show(obj), "t_code does not return one portable code object for a concrete localsplus table")]
+    problems = []
+    for var, mask in (("co_varnames", masks["CO_FAST_LOCAL"]), ("co_cellvars", masks["CO_FAST_CELL"]), ("co_freevars", masks["CO_FAST_FREE"])):
+        expect = tuple(nm for nm, kd in zip(names, kinds) if kd & mask)
+        got = obj.attrs.get(var)
+        if not isinstance(got, (tuple, list)) or tuple(got) != expect:
+            problems.append(("R4", "localsplus:%s" % var, "names whose kind has 0x%02x: %s" % (mask, list(expect)), show(got)[:120],
+                             "3.11+ localspluskinds split (kinds %s): %s is %s, CPython gives %s" % (kinds.hex(), var, show(got)[:80], list(expect))))
+    nl = obj.attrs.get("co_nlocals")
+    if nl != len([1 for kd in kinds if kd & masks["CO_FAST_LOCAL"]]):
+        problems.append(("R4", "localsplus:co_nlocals", "number of names with CO_FAST_LOCAL", show(nl), "co_nlocals of a 3.11+ code object is not the number of local names"))
+    return problems
 
 
 def check_localsplus(loops, masks, attrs):
